@@ -15,7 +15,11 @@ pub fn cu_stub<F: FnOnce() -> R + std::panic::UnwindSafe, R>(f: F) -> std::threa
     Ok(f())
 }
 
-pub const N: usize = 4;
+/// bound on the vector length: 4 (quick); the thorough tier compiles with VERIF_CONVERT_N=6
+pub const N: usize = match option_env!("VERIF_CONVERT_N") {
+    Some(s) => (s.as_bytes()[0] - b'0') as usize,
+    None => 4,
+};
 pub const NEVER: usize = 99;
 
 pub struct Ghost {
@@ -307,7 +311,7 @@ macro_rules! family {
         pub mod $modname {
             use super::*;
             #[kani::proof]
-            #[kani::unwind(6)]
+            #[kani::unwind(11)]
             #[kani::stub(real_cu, cu_stub)]
             pub fn c08_success() {
                 unsafe { pod_init() };
@@ -315,7 +319,7 @@ macro_rules! family {
                 check_success::<$elem>(len, $max);
             }
             #[kani::proof]
-            #[kani::unwind(6)]
+            #[kani::unwind(11)]
             #[kani::stub(real_cu, cu_stub)]
             pub fn c09_error() {
                 unsafe { pod_init() };
@@ -330,14 +334,14 @@ macro_rules! family {
 
 family!(pod, PodU32, N);
 family!(tokens, Tokens, N);
-family!(boxes, Boxes, 3);
+family!(boxes, Boxes, N - 1);
 family!(units, Units, N);
-family!(large, Large, 3);
-family!(overaligned, OverAligned, 3);
+family!(large, Large, N - 1);
+family!(overaligned, OverAligned, N - 1);
 
 /// `convert_vec_in_place` (the infallible wrapper) delegates: same postcondition through it.
 #[kani::proof]
-#[kani::unwind(6)]
+#[kani::unwind(11)]
 #[kani::stub(real_cu, cu_stub)]
 pub fn c08_wrapper_pod() {
     unsafe { pod_init() };
